@@ -383,3 +383,64 @@ def after_measure_cells(tier: str, seed: int):
                     cells.append(_cell(spec, tag, ltag, cls, bool(n % 2), seed, {"kind": "seq", "steps": steps, "targets": [R(t) for t in tg], "entry": entry},
                                        flags=_flagtag(flags), variant="after-measure"))
     return cells
+
+
+def invalid_cells(tier: str, seed: int):
+    """C17: every kind of invalid request at every entry point x layout x level, followed by a valid continuation."""
+    cells = []
+    quick = tier == "quick"
+    n = 0
+    CONT = {"e0.f": {"kind": "op", "entry": "self", "fam": "Fock", "type": "PhaseShift", "params": {"phi": 0.4}},
+            "e0.p": {"kind": "op", "entry": "self", "fam": "Polarization", "type": "H", "params": {}},
+            "c0": {"kind": "op", "entry": "self", "fam": "Custom", "type": "Custom", "params": {"operator": {"unitary": 31}}}}
+    for si, (tag, blocks) in enumerate(LY.STRUCTS):
+        for ltag, levels, dl in LY.level_settings(blocks, [], tier):
+            for cls in ({"V": ["pure"], "M": ["mixed"], "L": ["basis"]}[ltag]):
+                plans = []
+                for t in ("e0.f", "e0.p", "c0"):
+                    ents = ["self", "ce"] + ([] if t == "c0" else ["env"])
+                    for entry in ents:
+                        plans += [("kraus-not-trace-preserving", entry, [t], {}), ("kraus-wrong-size", entry, [t], {}),
+                                  ("povm-wrong-size", entry, [t], {})]
+                        if t != "e0.f":     # a Fock space is resized to the dimension of a custom operator: not an invalid request
+                            plans.append(("custom-operator-wrong-size", entry, [t], {}))
+                        if entry != "self":
+                            plans.append(("wrong-kind-of-subsystem", entry, [t], {}))
+                plans += [("kraus-wrong-size", "ce", ["e0.p", "e1.p"], {}), ("kraus-not-trace-preserving", "env", ["e0.f", "e0.p"], {}),
+                          ("povm-wrong-size", "ce", ["e1.p", "e0.f"], {}), ("duplicate-kraus-targets", "ce", ["e0.p"], {}),
+                          ("shrink-below-occupied-levels", "self", ["e0.f"], {"new": 1}), ("shrink-below-occupied-levels", "env", ["e0.f"], {"new": 1}),
+                          ("shrink-below-occupied-levels", "ce", ["e0.f"], {"new": 1}), ("shrink-below-occupied-levels", "self", ["e0.f"], {"new": 0}),
+                          ("shrink-below-occupied-levels", "ce", ["e1.f"], {"new": -3})]
+                for what, entry, tg, extra in plans:
+                    n += 1
+                    if quick and n % 5 != 0:
+                        continue
+                    if what == "shrink-below-occupied-levels" and cls == "basis":
+                        continue
+                    spec = LY.make_spec(blocks, levels, {}, default_level=dl, default_cls=cls, bystander=(n % 7 == 0))
+                    a = {"kind": "invalid", "what": what, "entry": entry, "targets": [LY.rename(spec, t) for t in tg],
+                         "then": [dict(CONT[tg[0]], targets=[LY.rename(spec, tg[0])])] if tg[0] in CONT else [], **extra}
+                    cells.append(_cell(spec, tag, ltag, cls, bool(n % 2), seed, a, variant=what, ntargets=len(tg),
+                                       target_store="+".join(sorted({LY.block_of(blocks, t)[0] for t in tg}))))
+    # vacuum annihilation: the target Fock is in |0> (possibly entangled partners elsewhere)
+    for tag, blocks in (("own", []), ("env01", [("env", ["e0.f", "e0.p"])]), ("ps:f0,p1", [("ps", ["e0.f", "e1.p"])]), ("ps:c0,f0", [("ps", ["c0", "e0.f"])])):
+        for lv in ("L", "V", "M"):
+            for entry in ("self", "env", "ce"):
+                lvl = {b[1][0]: ("V" if lv == "L" else lv) for b in blocks}
+                spec = LY.make_spec(blocks, lvl, {b[1][0]: "basis" for b in blocks}, default_level=lv, default_cls="basis", labels={"e0.f": 0, "e1.f": 1})
+                for b in spec["blocks"]:
+                    if b["kind"] != "own" or b["members"] == [LY.rename(spec, "e0.f")]:
+                        b["cls"], b["label"] = "basis", 0
+                a = {"kind": "invalid", "what": "annihilate-the-vacuum", "entry": entry, "targets": [LY.rename(spec, "e0.f")],
+                     "then": [{"kind": "op", "entry": "self", "fam": "Fock", "type": "Creation", "params": {}, "targets": [LY.rename(spec, "e0.f")]}]}
+                cells.append(_cell(spec, tag, lv, "basis", True, seed, a, variant="annihilate-the-vacuum", target_store=LY.block_of(blocks, "e0.f")[0]))
+    # subsystems outside the container: a second, unrelated composite envelope / envelope
+    for lv, cls in (("V", "pure"), ("M", "mixed")):
+        spec = LY.make_spec([("ps", ["e0.f", "e1.p"])], {"e0.f": lv}, {}, default_level=lv, default_cls=cls, bystander=True)
+        for what, entry, tg, foreign in (("subsystem-outside-the-container", "ce", ["e0.p"], "e2.p"), ("subsystem-outside-the-container", "env", ["e0.p"], "e1.p"),
+                                        ("kraus-outside-the-container", "ce", ["e0.p"], "e2.p"), ("kraus-outside-the-container", "env", ["e0.f"], "e1.p"),
+                                        ("subsystem-outside-the-container", "ce", ["e0.f"], "e2.f")):
+            a = {"kind": "invalid", "what": what, "entry": entry, "targets": [LY.rename(spec, t) for t in tg], "foreign": foreign,
+                 "then": [{"kind": "op", "entry": "self", "fam": "Polarization", "type": "H", "params": {}, "targets": [LY.rename(spec, "e0.p")]}]}
+            cells.append(_cell(spec, "ps:f0,p1+bystander", lv, cls, True, seed, a, variant=what, target_store="foreign"))
+    return cells
